@@ -48,6 +48,9 @@ type c16Case struct {
 	HooksReversed bool `json:"terminate_hook_installed_first,omitempty"`
 	// TLS: the server sits on a TLS listener and the clients speak TLS (the server then runs the handshake itself)
 	TLS bool `json:"tls_listener,omitempty"`
+	// ListenerClosedError: how the listener handed to the server reports that it was closed: "" = *net.OpError wrapping
+	// net.ErrClosed (the net package), bare = net.ErrClosed itself, wrapped = fmt.Errorf("...%w", net.ErrClosed)
+	ListenerClosedError string `json:"listener_reports_closure_as,omitempty"`
 }
 
 type ctxConnID struct{}
@@ -144,6 +147,7 @@ func c16Bubble(c c16Case) c08Result {
 		return &payloads.ActivateResponsePayload{UniqueIdentifier: req.UniqueIdentifier}, nil
 	}))
 	ln := memnet.NewListener()
+	ln.ClosedErr = c.ListenerClosedError
 	connectHook := kmipserver.ConnectHook(func(ctx context.Context) (context.Context, error) {
 		lg.mu.Lock()
 		if lg.shutdownReturned {
@@ -512,7 +516,7 @@ func c16Bubble(c c16Case) c08Result {
 func TestC16Shutdown(t *testing.T) {
 	const name = "TestC16Shutdown"
 	rec := evid.New("C16", name, "0..6 connections, each in a drawn phase when Shutdown is called (idle, partial message sent, request in a handler of 0 / 1 s / 2.9 s / 3.1 s / 10 s honouring or ignoring its context (optionally with the next request already sent and waiting in the server's read loop), response blocked on a non-reading client, "+
-		"connecting during shutdown, accepted but not yet registered by the accept loop when Shutdown starts (the loop is held at a yield point and released once Shutdown waits or has returned), already closed, connect hook failing, silent but still connected after having sent something that is not a request message (a response message, another structure, a header announcing 2 MiB) and read the server's answer), on a plain or (one case in three) a TLS listener, optionally a second, overlapping Shutdown call 1 / 500 / 2000 / 3500 ms after the first, with 0..2 completed requests before and an optional client action (send more / close) at 0.5 / 2 / 3.5 s after shutdown began; synctest bubble (the 3 s grace period is exact and free); "+
+		"connecting during shutdown, accepted but not yet registered by the accept loop when Shutdown starts (the loop is held at a yield point and released once Shutdown waits or has returned), already closed, connect hook failing, silent but still connected after having sent something that is not a request message (a response message, another structure, a header announcing 2 MiB) and read the server's answer), on a plain or (one case in three) a TLS listener whose Accept reports the closure as a *net.OpError, as net.ErrClosed itself or as an error wrapping it, optionally a second, overlapping Shutdown call 1 / 500 / 2000 / 3500 ms after the first, with 0..2 completed requests before and an optional client action (send more / close) at 0.5 / 2 / 3.5 s after shutdown began; synctest bubble (the 3 s grace period is exact and free); "+
 		"oracle at the instant Shutdown returns and after 5 more seconds: listener closed, Serve returned ErrShutdown, no handler running or started later, census 0, every in-flight request answered or cancelled no earlier than 3 s, exactly one terminate hook per successful connect hook after the connection's last handler, none otherwise; "+
 		"non-trivial = a connection mid-handler and another connection in a different phase; distinct by case").Attach(t)
 	if rp := evid.LoadReplay(name); rp != nil {
@@ -555,6 +559,7 @@ func TestC16Shutdown(t *testing.T) {
 		}
 		c.HooksReversed = rapid.Bool().Draw(rt, "hooks-reversed")
 		c.TLS = rapid.IntRange(0, 2).Draw(rt, "tls") == 0
+		c.ListenerClosedError = rapid.SampledFrom([]string{"", "", "bare", "wrapped"}).Draw(rt, "listener-closed-error")
 		key, _ := json.Marshal(c)
 		var labels []string
 		labels = append(labels, fmt.Sprintf("second-shutdown=%v", c.SecondShutdownMs > 0), fmt.Sprintf("hooks-reversed=%v", c.HooksReversed), fmt.Sprintf("tls=%v", c.TLS))
